@@ -16,9 +16,9 @@ MODNAME = __name__
 # a bare identifier as in the dialect grammar (refparse.IDENT_RE): a letter, then letters / digits / '_' / '-' / ':' / '.'
 # (BibTeX macro names such as j-cacm, pub:ACM, acm.cs); what starts with a digit is a number or left open
 IDENT = re.compile(r"[^\W\d_][\w\-:.]*\Z")
-SKEYS = ["s", "t", "S", "j-cacm", "pub:ACM"]
+SKEYS = ["s", "t", "S", "j-cacm", "pub:ACM", "jan"]
 VALUE_POOL = ["s", "t", "S", "u", "T", "{s}", '"s"', "{t}", '"S"', "s # t", 's # "x"', '"x" # s', "12", "s1", "ss", "{s} # t", "{{s}}", '{"s"}',
-              "j-cacm", "pub:ACM", "{j-cacm}", "j-CACM", "j-cacm # s", "pub:acm", "j-cac"]
+              "j-cacm", "pub:ACM", "{j-cacm}", "j-CACM", "j-cacm # s", "pub:acm", "j-cac", "jan", "Jan", "{jan}"]
 
 
 def strip1(v):
@@ -122,8 +122,8 @@ def o_deriv(deriv):
 SUBS = {"deriv": o_deriv}
 
 
-def _entry(key, values):
-    fields = [{"wa": " ", "key": "f%d" % i, "wb": " ", "wc": " ", "value": v, "wd": ""} for i, v in enumerate(values)]
+def _entry(key, values, fkeys=None):
+    fields = [{"wa": " ", "key": (fkeys[i] if fkeys else "f%d" % i), "wb": " ", "wc": " ", "value": v, "wd": ""} for i, v in enumerate(values)]
     return {"k": "entry", "type": "article", "hws": "", "ws1": "", "key": key, "ws2": "", "fields": fields, "comma": False, "ws_end": ""}
 
 
@@ -156,6 +156,35 @@ def w_product(acc):
             acc.run("deriv", o_deriv, d, True)
 
 
+def w_structured(acc):
+    """Longer structures: a defined reference after n undefined ones in one entry, many references in one entry, and
+    fields whose *key* has a meaning elsewhere (month = jan with a user-defined @string jan)."""
+    undefined = ["u", "T", "u2", "S1", "j-cac", "zz", "Jan", "acm"]
+    for n in range(0, 13):
+        for tail in (["s"], ["s", "{s}", "t"], ["t", "u", "s"]):
+            vals = [undefined[i % len(undefined)] for i in range(n)] + tail
+            for defs in (["s"], ["s", "t"], ["t", "s", "s"]):
+                d = []
+                for k in defs:
+                    d += [_string(k, '"def of %s"' % k), GAP]
+                d += [_entry("k1", vals), GAP, _entry("k2", list(reversed(vals))), GAP]
+                acc.run("deriv", o_deriv, d, True)
+                acc.run("deriv", o_deriv, list(reversed(d)), True)
+    for n in (5, 9, 17, 40):
+        vals = ["s" if i % 2 else "t" for i in range(n)]
+        acc.run("deriv", o_deriv, [_string("s", '"S"'), GAP, _entry("k1", vals), GAP, _string("t", "{T}"), GAP], True)
+    months = ["jan", "feb", "may", "dec", "Jan", "sep"]
+    for m in months:
+        for fk in (["month", "journal"], ["journal", "month"], ["Month", "month", "year"], ["month"]):
+            for defined in ([m], [m.lower()], ["feb"], []):
+                d = []
+                for k in defined:
+                    d += [_string(k, '"user text for %s"' % k), GAP]
+                d += [_entry("k1", [m] * len(fk), fk), GAP]
+                acc.run("deriv", o_deriv, d, True)
+    acc.classes["structured"] += 1
+
+
 def w_large(acc, n):
     for ref in ("s0", "s50", "undefined", "S0"):
         acc.run("deriv", o_deriv, bibgen.large_document(n, ref=ref), True)
@@ -174,8 +203,15 @@ def gen_refdoc(ints):
             it = _string(src.pick(SKEYS), src.pick(DEF_VALUES) if src.below(3) else bibgen.gen_value(src, 3))
             it["kw"] = src.pick(["string", "String", "STRING"])
         elif r < 9 or prev_text:
-            vals = [src.pick(VALUE_POOL) if src.below(10) < 7 else bibgen.gen_value(src, 3, None) for _ in range(1 + src.below(4))]
-            it = _entry("k%d" % c, vals)
+            vals = [src.pick(VALUE_POOL) if src.below(10) < 7 else bibgen.gen_value(src, 3, None) for _ in range(1 + src.below(4) + (6 if src.below(5) == 0 else 0))]
+            fk = None
+            if src.below(3) == 0:
+                pool = ["month", "journal", "doi", "crossref", "Month", "year"]
+                fk = []
+                for i in range(len(vals)):
+                    k = src.pick(pool)
+                    fk.append(k if k not in fk else "f%d" % i)
+            it = _entry("k%d" % c, vals, fk)
             it["comma"] = src.below(2) == 0
             for f in it["fields"]:
                 f["wd"] = src.pick(["", " ", "\n"])
@@ -199,7 +235,7 @@ def w_random(acc, n, seed):
 
 def run(chk):
     quick = chk.tier == "quick"
-    tasks = [("w_product", ())] + [("w_large", (n,)) for n in (130, 300, 1100)]
+    tasks = [("w_product", ()), ("w_structured", ())] + [("w_large", (n,)) for n in (130, 300, 1100)]
     n_rand = 24000 if quick else 400000
     shards = 16 if quick else 64
     for s in range(shards):
